@@ -63,6 +63,17 @@ def cases(thorough):
                     for s1 in ("0d", "3", "2x3"):
                         for u1 in one_per_family:
                             yield {"block": "AX", "op": op, "side": side, "kind": kind, "d1": d1, "s1": s1, "u1": u1}
+    # block 4: sequences on two persistent operands: binary operations interleaved with in-place changes of the operands
+    # (the result must always be computed from the operands' current values)
+    STEPS = ["add", "sub", "mul", "div", "radd", "mut_b_imul", "mut_b_iadd", "mut_b_poke", "mut_a_imul", "mut_b_unit_mul"]
+    for (u1, u2) in [("m", "cm"), ("cm", "m"), ("g", "M_sun"), ("km/s", "cm/s")]:
+        for d in ("f8", "f4"):
+            for seq in itertools.product(STEPS, repeat=3):
+                if not any(x.startswith("mut") for x in seq[:2]) or seq[2].startswith("mut"):
+                    continue
+                if not thorough and d == "f4" and seq[0].startswith("mut"):
+                    continue
+                yield {"block": "SEQ", "u1": u1, "u2": u2, "d1": d, "steps": list(seq)}
     # block 3: unary / scalar-multiple / powers
     for op in UNARY:
         for d1 in ("f8", "f4", "i8", "i4"):
@@ -222,6 +233,8 @@ def run_case(acc, idx, c):
         label = ("Array-" + c["kind"]) if c["side"] == "right" else (c["kind"] + "-Array")
         out = check_binary(acc, idx, c, a, b, A, dA, tA, B, dB, tB, c["op"], c["side"] == "right", label, (dt1,))
         return out, True
+    if c["block"] == "SEQ":
+        return run_sequence(acc, idx, c), True
     # unary block
     dt1 = _arr.DTYPES[c["d1"]]
     v1 = _arr.values_for(_arr.SHAPES[c["s1"]], dt1, c["vset"], 0)
@@ -272,6 +285,41 @@ def run_case(acc, idx, c):
         acc.violation(f"C02:wrong-value:{op}", idx, c, {"got": np.asarray(got).ravel()[:4].tolist(), "expected": np.asarray(want).ravel()[:4].tolist()})
         return "wrong-value", True
     return "ok", True
+
+
+def run_sequence(acc, idx, c):
+    import osyris
+
+    dt = _arr.DTYPES[c["d1"]]
+    a = osyris.Array(np.array([1.0, 2.0, 4.0], dtype=dt), unit=c["u1"])
+    b = osyris.Array(np.array([8.0, 16.0, 32.0], dtype=dt), unit=c["u2"])
+    out = "ok"
+    for k, st in enumerate(c["steps"]):
+        if st.startswith("mut"):
+            try:
+                with np.errstate(all="ignore"):
+                    if st == "mut_b_imul":
+                        b *= 2.0
+                    elif st == "mut_b_iadd":
+                        b += osyris.Array(np.array([1.0, 1.0, 1.0], dtype=dt), unit=c["u2"])
+                    elif st == "mut_b_poke":
+                        b.values[0] = dt(64.0)
+                    elif st == "mut_a_imul":
+                        a *= 0.5
+                    elif st == "mut_b_unit_mul":
+                        b *= osyris.Array(np.array([2.0, 2.0, 2.0], dtype=dt), unit="s")
+            except Exception:
+                pass  # an in-place update refused for incompatible units leaves the operand as it was
+            continue
+        A, dA, tA = _arr.phys(a)
+        B, dB, tB = _arr.phys(b)
+        op = {"add": "add", "sub": "sub", "mul": "mul", "div": "div", "radd": "add"}[st]
+        x, y, X, Y, dX, dY = (a, b, A, B, dA, dB) if st != "radd" else (b, a, B, A, dB, dA)
+        o = check_binary(acc, idx, c, x, y, X, dX, tA, Y, dY, tB, op, True, f"sequence-step-{'first' if k == 0 else 'after-earlier-steps'}", (dt,))
+        if o not in ("ok", "raises"):
+            out = o
+            break
+    return out
 
 
 def work(payload):
